@@ -770,9 +770,11 @@ impl<'t, 'a> Gen<'t, 'a> {
                     e
                 } else if self.prof.objects && self.t.chance(50) {
                     // a field read is a "simple" initializer as well: evaluated once
-                    match self.field_read(elem, 1) {
-                        e @ E::Field(..) => e,
-                        _ => self.leaf(elem),
+                    let has_field = (0..self.classes.len()).any(|k| self.obj_available(k) && self.classes[k].fields.iter().any(|(_, t)| t == &**elem));
+                    if has_field {
+                        self.field_read(elem, 1)
+                    } else {
+                        self.leaf(elem)
                     }
                 } else {
                     self.leaf(elem)
@@ -1101,13 +1103,15 @@ impl<'t, 'a> Gen<'t, 'a> {
         } else {
             let k = builtin[i - cands.len()];
             let own: Vec<String> = self.effective_methods(k).into_iter().map(|(m, _)| m.name).collect();
-            let recv = self.expr(&Ty::Obj(k), d - 1);
+            // NOTHING that was generated may be thrown away (it may contain a `let` that is
+            // registered in the environment): decide first, generate the receiver afterwards
             match (self.chain_end(k), ty) {
                 (Parent::Int, Ty::Int) => {
                     let ops: Vec<&str> = ["+", "-", "*"].iter().cloned().filter(|o| !own.contains(&o.to_string())).collect();
                     if ops.is_empty() {
                         return self.leaf(ty);
                     }
+                    let recv = self.expr(&Ty::Obj(k), d - 1);
                     let op = ops[self.t.pick(ops.len())];
                     bin(op, recv, E::Int(self.t.range(-3, 4) as i32))
                 }
@@ -1117,6 +1121,7 @@ impl<'t, 'a> Gen<'t, 'a> {
                     if ops.is_empty() {
                         return self.leaf(ty);
                     }
+                    let recv = self.expr(&Ty::Obj(k), d - 1);
                     let op = ops[self.t.pick(ops.len())];
                     bin(op, recv, self.expr(&Ty::Int, d - 1))
                 }
@@ -1125,6 +1130,7 @@ impl<'t, 'a> Gen<'t, 'a> {
                     if ops.is_empty() {
                         return self.leaf(ty);
                     }
+                    let recv = self.expr(&Ty::Obj(k), d - 1);
                     let op = ops[self.t.pick(ops.len())];
                     bin(op, recv, self.expr(&Ty::Bool, d - 1))
                 }
@@ -1132,6 +1138,7 @@ impl<'t, 'a> Gen<'t, 'a> {
                     if own.contains(&"get".to_string()) || n == 0 {
                         return self.leaf(ty);
                     }
+                    let recv = self.expr(&Ty::Obj(k), d - 1);
                     let i = self.t.pick(n) as i32;
                     if self.t.flag() {
                         index(recv, E::Int(i))
